@@ -18,7 +18,10 @@ def main():
     bad = 0
     total = 0
     try:
+        only = [x for x in os.environ.get('VERIF_SELFTEST_PROPS', '').split(',') if x]
         for prop, cfg in sorted(verifctl.PROPS.items()):
+            if only and prop not in only:
+                continue
             bins = [cache + '/h'] + ([cache + '/h.race'] if cfg['race'] else [])
             for seed in seeds:
                 ref = None
@@ -30,7 +33,7 @@ def main():
                             env = dict(os.environ, GOMAXPROCS=str(gmp), GORACE='halt_on_error=1 exitcode=66 atexit_sleep_ms=0')
                             if cfg.get('cold'):
                                 # cold properties: one world per process
-                                cmds = [[b, '-prop', prop, '-seed', str(seed), '-from', str(i), '-n', '1', '-selftest', out + '.%d' % i, '-out', os.devnull] for i in range(min(n, 4))]
+                                cmds = [[b, '-prop', prop, '-seed', str(seed), '-from', str(i), '-n', '1', '-selftest', out + '.%d' % i, '-out', os.devnull] for i in range(min(n, int(os.environ.get('VERIF_SELFTEST_COLD', '4'))))]
                                 env['VERIF_COLD'] = '1'
                             else:
                                 cmds = [[b, '-prop', prop, '-seed', str(seed), '-from', '0', '-n', str(n), '-selftest', out, '-out', os.devnull]]
